@@ -846,7 +846,31 @@ def rule_json_protocol(rep, rule="C-keys"):
             problems.append("entries of %s" % x.d["name"])
     rep.check(not problems, rule, up.short, "up(down(dict))", ok="the plain-json conversion is a key bijection that drops only the per-tier spans; tier order preserved",
               bad="json down/up conversion loses or changes: %s" % ", ".join(problems))
-    rep.floor(rule, 4)
+    # a span override narrower than the tiers' own spans (C04: "an override becomes the file's span"): the plain-json
+    # document carries the override, not a span recomputed from the tiers
+    prep = idx.get("utilities.textgrid_io:_prepTgForSaving")
+    at2 = Atoms()
+    ents2, _, _ = declare_tier(at2, 1, "interval", prefix="i", span=False, as_atoms=False)
+    m2, M2, lo, hi = at2.var("m"), at2.var("M"), at2.var("lo"), at2.var("hi")
+    for a_, b_ in (("m", "lo"), ("hi", "M")):
+        at2.rel(a_, "<", b_)
+    at2.fact_le(lo, ents2[0][0]); at2.fact_le(ents2[0][1], hi)
+    st2 = next(iter(at2.states()))
+
+    def code2(I):
+        tg, objs = build_tg(I, [("interval", "phone", ents2)], m2, M2)
+        d_ = I.call_function(todict, [tg], {})
+        d_ = I.call_function(prep, [d_, False, lo, hi, None], {})
+        return I.call_function(down, [d_], {})
+    got2, I2 = run_code(idx, st2, code2)
+    if got2.kind != "ok":
+        rep.undecided(rule, down.short, "override in plain json", "%s: %s" % (got2.kind, got2.value))
+    else:
+        dn2 = got2.value
+        ok2 = num_equal(I2, dn2.d["start"], lo) and num_equal(I2, dn2.d["end"], hi)
+        rep.check(ok2, rule, down.short, "span override narrower than the tiers' spans", ok="start/end are the requested span",
+                  bad="plain json is written with span (%r, %r), the requested span is (lo, hi): the override is undone" % (dn2.d["start"], dn2.d["end"]))
+    rep.floor(rule, 5)
 
 
 # ------------------------------------------------------------------------------------ reader control flow
